@@ -1,4 +1,5 @@
 import DesperProofs.Lemmas.WorldLog
+import DesperProofs.Lemmas.WorldLife
 import DesperProofs.Lemmas.WorldPWorld
 /-
   C07 — Processors run once per frame in priority order, one per type.
@@ -134,6 +135,24 @@ theorem C07_knows_world (U : Universe) [U.NoReenter] (s : St) (p : Obj) (prio? :
     | _ => cases h
   exact key _ hok
 
+/-- The added processor gets `on_add`: while dispatching is enabled, adding a processor (of a type
+not yet present — the replacement case runs the old instance's `on_remove` first, `C07_replace`)
+whose class maps `on_add` to a method calls that method exactly once — one new log entry, with no
+owning entity — before `add_processor` returns. -/
+theorem C07_gets_on_add (U : Universe) [U.NoReenter] (s : St) (p : Obj) (prio? : Option Int)
+    (m : Mapping) (meth : String) (hm : U.mapOf p = some m) (hon : Dict.get? m onAdd = some meth)
+    (hen : s.enabled = true) (hfresh : Dict.get? s.procs (tyOf U p) = none) :
+    (addProcessor U s p prio?).1.log = .life onAdd p meth none :: s.log := by
+  unfold addProcessor
+  simp only [hfresh, Option.isSome_none, Bool.false_eq_true, if_false]
+  unfold attachEvents lifecycle
+  simp only [hm, hon]
+  have he : (addHandler (insertProc U (setPrio s p prio?) p) p m).enabled = true := by
+    cases prio? <;> exact hen
+  simp only [he, if_true]
+  rw [callCb_log, (ctrlRecord_fields U _ onAdd p none).2.2.1]
+  cases prio? <;> rfl
+
 /-! non-vacuity: three processor classes, priorities 1, 0 (explicit), 0 (tie, added later) -/
 private def exU : Universe :=
   { classes := [{ bases := [], isProc := true, prio := 1 }, { bases := [], isProc := true, prio := 5 },
@@ -148,4 +167,13 @@ example :
 
 /-- non-vacuity of `C07_knows_world`: adding returns normally and the processor knows its world -/
 example : (addProcessor exU {} 1 (some 0)).2 = .ok ∧ 1 ∈ (addProcessor exU {} 1 (some 0)).1.pworld := by
+  decide
+
+/-- non-vacuity of `C07_gets_on_add`: a processor class mapping `on_add` to `m` -/
+private def exU2 : Universe :=
+  { classes := [{ bases := [], isProc := true, prio := 1 }],
+    mapping := fun _ => some [(onAdd, "m")], objTy := fun _ => some 0, raises := fun _ _ _ => none }
+
+example : exU2.mapOf 5 = some [(onAdd, "m")] ∧ ({} : St).enabled = true ∧
+    (addProcessor exU2 {} 5 none).1.log = [.life onAdd 5 "m" none] := by
   decide
